@@ -397,8 +397,9 @@ func signedOf(kind, v string) string {
 		w = 32
 	case "int", "int64":
 		w = 64
-	case "bigbv":
-		w = bigBVWidth
+	}
+	if strings.HasPrefix(kind, "bigbv:") {
+		fmt.Sscanf(kind[6:], "%d", &w)
 	}
 	if w > 0 && bi.Sign() >= 0 && bi.Bit(w-1) == 1 {
 		bi.Sub(bi, new(big.Int).Lsh(big.NewInt(1), uint(w)))
